@@ -84,6 +84,20 @@ func evalC05RT(c c05RT, o *Obs) error {
 			}
 		}
 	}
+	// the parsed key's neutered twin is erased, and so is a second key parsed from the same string: the parsed key and
+	// every later parse of that string are what they were
+	if n, err := p.Neuter(); err == nil && n != p {
+		n.Zero()
+	}
+	if q, err := hdkeychain.NewKeyFromString(s); err == nil {
+		q.Zero()
+	}
+	if p.String() != s {
+		return fmt.Errorf("re-parsed key %s serialises to %s after its neutered twin and another key parsed from the same string were erased", s, p.String())
+	}
+	if q, err := hdkeychain.NewKeyFromString(s); err != nil || q.String() != s {
+		return fmt.Errorf("key string %s, parsed once more after an earlier key parsed from it was erased, gives %v (err %v)", s, q, err)
+	}
 	// a network of the caller's own making, known to no registry: the key carries its version bytes like any other
 	own := *nets[c.Net].Params
 	own.Name = "own"
@@ -104,6 +118,11 @@ func evalC05RT(c c05RT, o *Obs) error {
 		return fmt.Errorf("key %s moved to a caller-made network prints as %s, which does not parse back to itself (err %v)", s, s2, err)
 	}
 	o.Class("C05:rt-own-network")
+	// finally the first key that was parsed from the string is erased; the string still means what it meant
+	p.Zero()
+	if q, err := hdkeychain.NewKeyFromString(s); err != nil || q.String() != s {
+		return fmt.Errorf("key string %s, parsed again after the first key parsed from it was erased, gives %v (err %v)", s, q, err)
+	}
 	return nil
 }
 
